@@ -39,7 +39,7 @@ theorem G_to_F_grid_eq (q f r : List ℝ) (d : Option (List ℝ)) : (Transformer
 theorem ft_len (x y xo : List ℝ) (xmin xmax : Option ℝ) (dy : Option (List ℝ)) :
     (Transformer.fourier_transform kw junk x y xo xmin xmax dy).2.1.length = xo.length := by
   simp only [Transformer.fourier_transform]
-  split_ifs <;> simp [Transformer._low_x_correction, Vec.add, Vec.zerosLike]
+  split_ifs <;> (try simp only [Transformer._low_x_correction, Vec.add, Vec.zerosLike]) <;> (try split_ifs) <;> simp
 
 theorem F_to_G_len (q f r : List ℝ) (d : Option (List ℝ)) : (Transformer.F_to_G kw junk q f r d).2.1.length = r.length := by
   simp only [Transformer.F_to_G, Vec.mulS, List.length_map]
